@@ -2013,6 +2013,13 @@ func createRoutingKey(routingKeyInfo *routingKeyInfo, values []interface{}) ([]b
 		return nil, nil
 	}
 
+	for _, index := range routingKeyInfo.indexes {
+		if index < 0 || index >= len(values) {
+			// fewer values bound than the statement has markers; executing it reports that properly
+			return nil, fmt.Errorf("gocql: cannot build the routing key: partition key is bind marker %d, got %d values", index, len(values))
+		}
+	}
+
 	if len(routingKeyInfo.indexes) == 1 {
 		// single column routing key
 		routingKey, err := Marshal(
